@@ -208,7 +208,9 @@ func init() {
 				if depth == 0 {
 					return Pick(rng, leafs)
 				}
-				if depth == 1 && rng.Chance(35) {
+				// typed Go slices: mostly where the innermost list is declared, sometimes one level up (a flat typed
+				// slice where a list of lists is declared: every member is then a non-list under a list type)
+				if (depth == 1 && rng.Chance(35)) || (depth > 1 && rng.Chance(12)) {
 					switch rng.Intn(10) {
 					case 0:
 						return []string{Pick(rng, boundaryStrings), Pick(rng, boundaryStrings)}
@@ -223,7 +225,7 @@ func init() {
 					case 5:
 						return []float64{Pick(rng, boundaryFloats), 1.5}
 					case 6:
-						return []time.Time{time.Unix(1, 5).UTC()}
+						return []time.Time{time.Unix(1, 5).UTC(), {}}
 					case 7:
 						return []int32{1, -5, 77}
 					case 8:
